@@ -59,6 +59,7 @@ def corpus():
     _names, fields = U.repo_name_corpus()
     cases = [{"kind": "pair", "t": t} for t in texts + fields]
     cases += [{"kind": "stack", "t": t, "field": "author"} for t in texts + fields[:20]]
+    cases += [{"kind": "cfg", "cfg": i, "t": t} for i in range(len(CFGS)) for t in ["Aa Bb and cc Dd, Ee", "van der Waals", "A B"]]
     cases.append({"kind": "mw", "fields": [["author", {"parts": [[["Aa"], ["von"], ["Bb"], ["Jr"]], [[], [], ["L\\"], []]]}],
                                           ["editor", {"parts": []}], ["title", {"s": "t"}]],
                   "groups": [["mergePartsLast"], ["mergeCo"], ["separate", "splitParts"]], "inplace": False})
@@ -104,6 +105,8 @@ def gen(tier, rng):
         yield {"kind": "stack", "t": t, "field": "author"}
     for _ in range(15000 if tier == "quick" else 120000):
         yield {"kind": "stack", "t": _persons(rng), "field": rng.choice(["author", "editor", "translator", "author"])}
+        if rng.random() < 0.05:
+            yield {"kind": "cfg", "cfg": rng.randrange(len(CFGS)), "t": _persons(rng)}
 
 
 def _doc(case):
@@ -122,6 +125,8 @@ def _plain_entry(case):
 
 def request(case):
     kind = case["kind"]
+    if kind == "cfg":
+        return None
     if kind == "mw":
         text = "".join(U.value_text(v) for _k, v in case["fields"])
         if not lean_representable(text):
@@ -205,8 +210,79 @@ def _stack(case):
     return enc(out)
 
 
+CFGS = [
+    # (name_fields per middleware group, fields of the document)
+    {"groups": [("author", "bookauthor")], "fields": ["author", "bookauthor", "editor"]},
+    {"groups": [("author",), ("editor",)], "fields": ["author", "editor", "translator"]},
+    {"groups": [("editor", "translator"), ("author",)], "fields": ["author", "editor", "translator"]},
+    {"groups": [("author", "editor", "translator")], "fields": ["author", "editor"]},
+]
+
+
+def _cfg_check(case):
+    """the stack clause with non-default configurations (python-only: the model's middlewares use the default
+    name fields): custom name_fields, and one middleware instance per group of fields, i.e. several instances
+    of the same class in append_middleware / prepend_middleware"""
+    import bibtexparser
+    from bibtexparser import model as M
+    from bibtexparser.middlewares.names import SeparateCoAuthors, SplitNameParts, MergeNameParts, MergeCoAuthors, NameParts
+    from bibtexparser.middlewares.names import (split_multiple_persons_names as _split,
+                                                parse_single_name_into_parts as _parse, InvalidNameError)
+    cfg = CFGS[case["cfg"]]
+    names = case["t"]
+    # the property's hypotheses: valid names, non-empty last, no word ending in an odd number of backslashes;
+    # and the inputs explained by the known findings K3 (bare `and` word) / K5 (merged value ends in a backslash)
+    try:
+        ps = [_parse(x) for x in _split(names)]
+    except InvalidNameError:
+        return None
+    if not ps or not all(_ok_parts(p) for p in ps) or _has_and_word(names) or _merged_ends_in_backslash(names):
+        return None
+    doc = "@article{k,\n" + "".join("\t%s = {%s},\n" % (f, names) for f in cfg["fields"]) + "\ttitle = {T}\n}\n"
+    plain = bibtexparser.parse_string(doc)
+    if len(plain.blocks) != 1 or not isinstance(plain.blocks[0], M.Entry):
+        return None
+    configured = {f for g in cfg["groups"] for f in g}
+    app = [SeparateCoAuthors(name_fields=g) for g in cfg["groups"]] + [SplitNameParts(name_fields=g) for g in cfg["groups"]]
+    lib1 = bibtexparser.parse_string(doc, append_middleware=app)
+    b1 = lib1.blocks[0]
+    if isinstance(b1, M.MiddlewareErrorBlock):
+        return None                                     # invalid name: C13's business
+    for f in b1.fields:
+        if f.key in configured and f.key in cfg["fields"]:
+            if not (isinstance(f.value, list) and all(isinstance(p, NameParts) for p in f.value)):
+                return "field %r is configured as a name field but was not split: %r" % (f.key, f.value)
+        elif f.key != "title" and not isinstance(f.value, str):
+            return "field %r is not configured as a name field but was transformed" % f.key
+    import copy
+    v1 = {f.key: copy.deepcopy(f.value) for f in b1.fields}
+    pre = ([MergeNameParts(name_fields=g, allow_inplace_modification=False) for g in cfg["groups"]]
+           + [MergeCoAuthors(name_fields=g, allow_inplace_modification=False) for g in cfg["groups"]])
+    try:
+        text = bibtexparser.write_string(lib1, prepend_middleware=pre)
+    except Exception as e:  # noqa
+        return "write_string with the inverse middlewares (name_fields %r) raised %s" % (cfg["groups"], type(e).__name__)
+    lib2 = bibtexparser.parse_string(text, append_middleware=[SeparateCoAuthors(name_fields=g) for g in cfg["groups"]]
+                                     + [SplitNameParts(name_fields=g) for g in cfg["groups"]])
+    b2 = lib2.blocks[0] if len(lib2.blocks) == 1 else None
+    if not isinstance(b2, M.Entry):
+        return "the written document does not re-parse to one entry"
+    if any(v1[f] != ps for f in configured if f in v1):
+        return None     # the field value the parser extracted is not the text we reasoned about (stripped etc.)
+    v2 = {f.key: f.value for f in b2.fields}
+    if v1 != v2:
+        bad = [k for k in v1 if v1[k] != v2.get(k)]
+        return "name_fields %r: field %r re-parses to %r, was %r" % (cfg["groups"], bad[0], v2.get(bad[0]), v1[bad[0]])
+    return None
+
+
 def impl(case):
     kind = case["kind"]
+    if kind == "cfg":
+        r = _cfg_check(case)
+        if r is not None:
+            raise AssertionError(r)
+        return "(ok cfg)"
     if kind == "mw":
         return enc(U.run_groups(U.make_entry(case["fields"]), case["groups"], case.get("inplace", True)))
     if kind == "pair":
@@ -229,6 +305,8 @@ def oracle(case):
     kind = case["kind"]
     if kind == "mw":
         return None
+    if kind == "cfg":
+        return _cfg_check(case)
     t = case["t"]
     names = split(t)
     try:
